@@ -14,16 +14,62 @@
    Also: the file-name resolution of ASerializable (container / prefix) on the model and on the real library,
    and the grid exchange formats that can be written and read.
 """
-import json, os, shutil, random, itertools, collections
+import json, os, shutil, random, itertools, collections, subprocess, hashlib, time
 import vlib
 from vlib import Check, Broken, log
 
 QUICK_CLASSES = ["Db", "DbGrid", "Model", "NeighUnique", "NeighBench", "NeighMoving", "Vario", "Polygons", "Table"]
-MORE_CLASSES = ["NeighCell", "NeighImage", "PolyLine2D"]
+EXCHANGE = ["GridZycor", "GridIfpEn"]       # grid exchange formats that can be written and read (no grammar modelled)
+MORE_CLASSES = ["NeighCell", "NeighImage", "PolyLine2D", "DbLine", "DbGraphO", "AnamHermite", "AnamEmpirical", "AnamDiscreteIR",
+                "MeshEStandard", "MeshETurbo", "Faults", "Rule", "RuleShift", "FracEnviron"]
 
 
 # recursive operators over files of ~100 tokens need a deeper Java stack than the default
 TLC_JAVA = "-Xmx8g -XX:+UseParallelGC -Xss64m"
+
+
+ASAN_ENV = {"ASAN_OPTIONS": "abort_on_error=1:detect_leaks=0:allocator_may_return_null=0:max_allocation_size_mb=1024:"
+                            "handle_abort=0:print_summary=1:symbolize=0:malloc_context_size=2:fast_unwind_on_malloc=1:detect_odr_violation=0",
+            "UBSAN_OPTIONS": "print_stacktrace=0:halt_on_error=0:report_error_type=1"}
+
+
+def use_asan():
+    return os.environ.get("VERIF_C09_NOASAN", "") == ""
+
+
+def build_asan_lib():
+    t0 = time.time()
+    r = subprocess.run([os.path.join(vlib.VERIF, "tools", "build_asan.sh")], capture_output=True, text=True,
+                       env=dict(os.environ, VERIF_REPO=vlib.REPO))
+    if r.returncode != 0:
+        raise Broken("sanitizer build of the library failed:\n" + r.stderr[-4000:])
+    d = r.stdout.strip().splitlines()[-1]
+    log("[build] sanitizer lib ok in %.1fs (%s)" % (time.time() - t0, d))
+    return d
+
+
+def build_asan_harness(name):
+    """harness/<name>.cpp linked against the sanitizer build of the library (tools/build_asan.sh)"""
+    lib = build_asan_lib()
+    os.makedirs(vlib.BIN, exist_ok=True)
+    tag = "" if vlib.REPO == "/repo" else "-" + hashlib.md5(vlib.REPO.encode()).hexdigest()[:8]
+    src = os.path.join(vlib.HARNESS, name + ".cpp")
+    out = os.path.join(vlib.BIN, name + "_asan" + tag)
+    deps = [src, os.path.join(lib, "Release", "libgstlearn.so"), os.path.join(vlib.REPO, "include")] + \
+           [os.path.join(vlib.HARNESS, f) for f in os.listdir(vlib.HARNESS) if f.endswith(".hpp")]
+    if os.path.exists(out) and os.path.getmtime(out) >= vlib._newest_mtime(deps):
+        return out
+    t0 = time.time()
+    cmd = ["g++", "-std=c++20", "-O1", "-g1", "-w", "-DGSTLEARN_VERIF", "-fsanitize=address,undefined", "-fno-sanitize=vptr",
+           "-fno-omit-frame-pointer", "-I" + os.path.join(vlib.REPO, "include"), "-I" + lib, "-I/usr/include/eigen3",
+           "-I" + vlib.HARNESS, src, "-o", out + ".tmp%d" % os.getpid(), "-L" + os.path.join(lib, "Release"), "-lgstlearn",
+           "-Wl,-rpath," + os.path.join(lib, "Release")]
+    r = subprocess.run(cmd, capture_output=True, text=True)
+    if r.returncode != 0:
+        raise Broken("harness %s (sanitizer) does not compile:\n%s" % (name, r.stderr[-4000:]))
+    os.replace(out + ".tmp%d" % os.getpid(), out)
+    log("[build] harness %s (sanitizer) ok in %.1fs" % (name, time.time() - t0))
+    return out
 
 
 def classes_cfg(level, classes):
@@ -87,7 +133,7 @@ def is_num(t):
 
 
 def tok_eq(a, b):
-    if a == b:
+    if a == b or a == "*" or b == "*":       # "*": a value that the specification leaves open
         return True
     if isinstance(a, str) and isinstance(b, str) and a != "NA" and b != "NA" and is_num(a) and is_num(b):
         x, y = float(a), float(b)
@@ -187,18 +233,20 @@ def model_and_cases(ck, classes, level, per_class, rng, tag, workers):
     return cases, res, exhaustive, sizes
 
 
-def run_real(ck, cases, tag, cfgs=(0,)):
-    exe = vlib.build_harness("nf_run")
+def run_real(ck, cases, tag, cfgs=(0,), asan=False):
+    exe = build_asan_harness("nf_run") if asan else vlib.build_harness("nf_run")
     w = ck.work
     cp = os.path.join(w, "cases_%s.ndjson" % tag)
     recs = []
     for i, e in enumerate(cases):
-        recs.append({"id": e["id"], "c": e["c"], "o": e["o"], "cfg": cfgs[i % len(cfgs)]})
+        # (the writers of the exchange formats open their files themselves: no container / prefix)
+        e["cfg"] = 0 if e["c"] in EXCHANGE else cfgs[i % len(cfgs)]
+        recs.append({"id": e["id"], "c": e["c"], "o": e["o"], "cfg": e["cfg"]})
     vlib.write_ndjson(cp, recs)
     op = os.path.join(w, "obs_%s.ndjson" % tag)
     tmp = os.path.join(w, "nf_%s" % tag)
     os.makedirs(tmp, exist_ok=True)
-    r = vlib.run_harness(exe, [cp, op, tmp], timeout=3000)
+    r = vlib.run_harness(exe, [cp, op, tmp], timeout=6000, env=ASAN_ENV if asan else None)
     obs = {o["id"]: o for o in vlib.read_ndjson(op)}
     if len(obs) != len(cases):
         raise Broken("nf_run reported %d cases out of %d" % (len(obs), len(cases)))
@@ -216,6 +264,7 @@ def judge(ck, cases, obs):
         c = e["c"]
         per_class[c] += 1
         ob = obs[e["id"]]
+        session = "fresh" if e.get("cfg") == 3 else "same"
         model_bad = not (e["rt"] and e["rw"])
         if model_bad:
             model_mis[c] += 1
@@ -233,14 +282,14 @@ def judge(ck, cases, obs):
         elif not ob.get("built"):
             raise Broken("nf_run could not build an instance of %s: %s" % (c, json.dumps(e["o"])[:600]))
         else:
-            d0 = deep_diff(e["o"], ob["p0"])
+            d0 = [] if c in EXCHANGE else deep_diff(e["o"], ob["p0"])
             if d0:
                 for f in top_fields(d0):
                     found.append({"class": c, "kind": "recipe", "field": f})
             if not ob.get("dump"):
                 found.append({"class": c, "kind": "dump-failed", "field": ""})
             else:
-                sd = stream_diff(e["lines"], ob["toks"])
+                sd = None if c in EXCHANGE else stream_diff(e["lines"], ob["toks"])
                 if sd and sd["layout_only"]:
                     layout_only += 1
                 elif sd:
@@ -266,6 +315,7 @@ def judge(ck, cases, obs):
         else:
             model = "diff:" + ("+".join(sorted(e["mdiff"])) or "rewrite")
         for rec in found:
+            rec["session"] = session
             rec["trait"] = trait
             rec["model"] = model
             ck.disagree(rec, replay)
@@ -279,6 +329,34 @@ def judge(ck, cases, obs):
         if found:
             ck.add("cases_disagreeing")
     return per_class, model_mis, confirmed, unconfirmed, layout_only
+
+
+def path_cases(ck):
+    """file-name resolution of ASerializable under the container / prefix settings: model verdict vs real library"""
+    w = ck.work
+    cfg = os.path.join(w, "paths.cfg")
+    open(cfg, "w").write("SPECIFICATION Spec\nCONSTANTS\n Level = 1\n")
+    pcs = vlib.tlc_emit_json("EmitNFPaths", cfg, os.path.join(w, "paths.json"))
+    exe = vlib.build_harness("nf_run")
+    cp, op = os.path.join(w, "pcases.ndjson"), os.path.join(w, "pobs.ndjson")
+    vlib.write_ndjson(cp, [{"id": i + 1, "c": "Path", "o": p} for i, p in enumerate(pcs)])
+    tmp = os.path.join(w, "ptmp")
+    os.makedirs(tmp, exist_ok=True)
+    vlib.run_harness(exe, [cp, op, tmp], timeout=600)
+    obs = {o["id"]: o for o in vlib.read_ndjson(op)}
+    for i, p in enumerate(pcs):
+        ob = obs[i + 1]
+        ck.add("traces_validated_against_impl")
+        ck.add("evaluations")
+        if not ob.get("loaded"):
+            ck.disagree({"class": "Path", "kind": "filename", "name": p["name"], "container": p["container"], "prefix": p["prefix"],
+                         "model": "same" if p["same"] else "differ"},
+                        {"settings": p, "observed": ob, "how": "Table::dumpToNF(name) then Table::createFromNF(name) under the settings"})
+        elif not p["same"]:
+            log("[C08] note: the model predicts that createFromNF does not look where dumpToNF wrote, the real library found the file: %s" % p)
+    ck.cov["file_name_cases"] = len(pcs)
+    ck.cov["file_name_cases_model_mismatch"] = sum(1 for p in pcs if not p["same"])
+    return len(pcs)
 
 
 def run(tier):
@@ -296,12 +374,16 @@ def _run(ck, tier):
     rng = random.Random(vlib.seed() * 7919 + 17)
     workers = int(os.environ.get("VERIF_TLC_WORKERS", "8"))
     if tier == "quick":
-        classes, level, per_class = QUICK_CLASSES, 1, 110
+        classes, level, per_class = QUICK_CLASSES + MORE_CLASSES + EXCHANGE, 1, 80
     else:
-        classes, level, per_class = QUICK_CLASSES + MORE_CLASSES, 2, 1000
+        classes, level, per_class = QUICK_CLASSES + MORE_CLASSES + EXCHANGE, 2, 1000
     cases, res, exhaustive, sizes = model_and_cases(ck, classes, level, per_class, rng, "main", workers)
-    obs = run_real(ck, cases, "main", cfgs=(0, 0, 0, 1, 2))
+    # thorough tier: the real library runs under AddressSanitizer / UBSan (memory errors of a round trip are crashes)
+    asan = tier == "thorough" and use_asan()
+    obs = run_real(ck, cases, "main", cfgs=(0, 0, 0, 1, 2, 0, 3), asan=asan)
+    ck.cov["sanitizer_build"] = asan
     per_class, model_mis, confirmed, unconfirmed, layout_only = judge(ck, cases, obs)
+    npath = path_cases(ck)
     for c in classes:
         if per_class[c] == 0:
             raise Broken("no instance of class %s was explored" % c)
